@@ -102,7 +102,10 @@ def _make_doubles():
         CALLS["log"].append([1, self.p, xs, ys])
         if CALLS["fail"] == ["fit", CALLS["fit"]]:
             raise _Boom("fit %d" % CALLS["fit"])
-        self.state_ = _dbl_fit(self.p, xs, ys)
+        # a refit of an already fitted object is visible in its state: the orchestrator must fit a
+        # fresh clone per fold, so `refits_` is 0 in every stored record
+        self.refits_ = getattr(self, "refits_", -1) + 1
+        self.state_ = _dbl_fit(self.p, xs, ys) + 2000 * self.refits_
         self._is_fitted = True
         return self
 
